@@ -9,6 +9,7 @@ pub mod signal;
 pub mod stamp;
 pub mod trace;
 pub mod vfs;
+pub mod worker;
 
 use plan::PlanEventKind;
 use rt::{with, EvKind, ExtEvent};
@@ -77,23 +78,66 @@ pub async fn blocking_op<T>(site: &'static str, path: &std::path::Path, f: impl 
     r
 }
 
-/// `spawn_blocking`: the closure becomes a task of its own that runs atomically when picked.
+/// `spawn_blocking`: the closure runs on a controlled thread of its own (see `worker`); the
+/// task standing for it resumes that thread one intercepted file-system call at a time.
+/// With ZSIM_NO_WORKER_THREADS set the closure runs inline and atomically instead.
 pub fn spawn_blocking<F, T>(f: F) -> rt::JoinHandle<T>
 where
-    F: FnOnce() -> T + 'static,
-    T: 'static,
+    F: FnOnce() -> T + Send + 'static,
+    T: Send + 'static,
 {
+    if std::env::var_os("ZSIM_NO_WORKER_THREADS").is_some() {
+        return rt::spawn(
+            async move {
+                rt::sched_point("blocking-run").await;
+                with(|rt| {
+                    rt.evv("blocking-run", "");
+                    rt.trace.flush();
+                });
+                let v = f();
+                with(|rt| vfs::scan_workdirs(rt));
+                v
+            },
+            "blocking",
+        );
+    }
+    let w = worker::start(f);
     rt::spawn(
-        async move {
-            rt::sched_point("blocking-run").await;
+        std::future::poll_fn(move |cx| {
+            if rt::poll_sched_point(cx, "blocking-step").is_pending() {
+                return std::task::Poll::Pending;
+            }
             with(|rt| {
                 rt.evv("blocking-run", "");
                 rt.trace.flush();
             });
-            let v = f();
-            with(|rt| vfs::scan_workdirs(rt));
-            v
-        },
+            let stopped = w.step();
+            // what the closure logged and wrote while it ran
+            let logs: Vec<String> = std::mem::take(&mut *worker::PENDING_LOGS.lock().unwrap());
+            with(|rt| {
+                for l in logs {
+                    rt.ev("log", &l);
+                }
+                vfs::scan_workdirs(rt);
+            });
+            match stopped {
+                Some(site) => {
+                    with(|rt| {
+                        rt.probe("blocking-closure-yielded-at-fs-call");
+                        rt.evv("blocking-yield", site);
+                    });
+                    cx.waker().wake_by_ref();
+                    std::task::Poll::Pending
+                }
+                None => {
+                    let out = w.result.lock().unwrap().take().expect("zsim: blocking closure finished without a result");
+                    match out {
+                        Ok(v) => std::task::Poll::Ready(v),
+                        Err(p) => std::panic::resume_unwind(p),
+                    }
+                }
+            }
+        }),
         "blocking",
     )
 }
@@ -118,6 +162,10 @@ impl log::Log for SimLogger {
             eprintln!("{} - {}", r.level(), msg);
         }
         let line = format!("{} {}", r.level(), strip_durations(&trace::esc(&msg)));
+        if worker::on_worker_thread() {
+            worker::PENDING_LOGS.lock().unwrap().push(line);
+            return;
+        }
         let _ = rt::try_with(|rt| rt.ev("log", &line));
     }
     fn flush(&self) {}
